@@ -77,3 +77,9 @@ func makeRootScheduled(t *Mast, st *vStore) (r *Root, err error, writesInFlightA
 	time.Sleep(5 * time.Millisecond)
 	return
 }
+
+// Natively flush calls Store from many goroutines at once: the recording store is locked.
+var storeMu sync.Mutex
+
+func storeLock(s *vStore)   { storeMu.Lock() }
+func storeUnlock(s *vStore) { storeMu.Unlock() }
